@@ -140,6 +140,8 @@ def build_estimator(spec):
     if kind == "trend":
         return vd.Trend(degree=spec[1])
     if kind == "spline":
+        if len(spec) > 2 and spec[2] is not None:
+            return vd.Spline(damping=spec[1], mindist=spec[2])  # deprecated fudge factor, still part of SplineCV's grid
         return vd.Spline(damping=spec[1])
     if kind == "knn":
         return vd.KNeighbors(k=spec[1], reduction=REDUCTIONS[spec[2]])
